@@ -2,7 +2,7 @@
    inductives. No Extract Constant of our own. *)
 From Coq Require Import ZArith List Bool.
 Require Import ExtrOcamlBasic.
-From RS Require Import Base.Bytes Base.Dyadic Model.Desc Model.Kernels Model.Spec Model.Decoder Model.Driver Model.Scenario.
+From RS Require Import Base.Bytes Base.Dyadic Model.Desc Model.Kernels Model.Spec Model.Decoder Model.Driver Model.Input Model.Scenario.
 From RS Require Import Gen.Params_gen Gen.Kernels_gen.
 Extraction Language OCaml.
 Extraction "model.ml"
@@ -14,4 +14,5 @@ Extraction "model.ml"
   Kernels_gen.SplitStrategyByAngle_newBlock Kernels_gen.SplitStrategyByNum_newBlock Kernels_gen.SplitStrategyBySeq_newPacket
   Kernels_gen.SplitStrategyBySeq_maxSeq Kernels_gen.AzimuthSection_ctor Kernels_gen.AzimuthSection_in_ Kernels_gen.fn_parseTempInLe Kernels_gen.fn_parseTempInBe
   Dyadic.dy_mul_r Dyadic.dy_of_Z Dyadic.dy_trunc Decoder.parse_ymd Decoder.create_ymd Decoder.parse_utc Decoder.create_utc
-  Driver.crc_calc Driver.crc_ok Driver.overflow_guard.
+  Driver.crc_calc Driver.crc_ok Driver.overflow_guard
+  Input.bpf_udp Input.pcap_extract Input.sock_extract Input.parse_frag Input.jumbo_step Input.jumbo_run Input.raw_feed.
